@@ -6,6 +6,7 @@ behaviour.
 -/
 import WpModel.Props.C11
 import WpModel.Props.C11Flow
+import WpModel.Model.FixedPages
 
 namespace Wp.Witness.C11
 open Wp Wp.Floats Wp.Absolute Wp.C11
@@ -50,21 +51,43 @@ theorem zero_height_float_keeps_static_position :
     (findFloatPosition shapes b cb).toOption = some (50, 70) := by
   decide +kernel
 
-/-! ### Witnesses: clauses false of the current code (`finding:` lines of known_findings.txt) -/
-
-/-- The repair of zero-height-float-at-page-origin is an early return that does not look at the other floats: a
-float with an empty border box but vertical margins (margin box 20×10) is put at the containing block's left edge
-at its static `y`, on top of the 20×20 left float that is already there.  `float_no_overlap` and
-`float_place_invariants` therefore still need `border_height ≠ 0`
-(finding zero-height-float-ignores-other-floats). -/
-theorem zero_height_float_overlaps_earlier_float :
+/-- Regression (former finding zero-height-float-ignores-other-floats, repaired in 1bc67ce): a float with an empty
+border box but vertical margins (margin box 20×10) next to the 20×20 left float that is already there goes beside
+it (x = 70), like any other float, and does not overlap it. -/
+theorem zero_height_float_avoids_earlier_float :
     let shapes : List Shape := [⟨50, 70, 20, 20, .left⟩]
     let b : ABox := ⟨50, 70, 5, 5, 5, 5, 10, 0, .left, .none, .bfc⟩
     let cb : CB := ⟨50, 100, false⟩
-    (findFloatPosition shapes b cb).toOption = some (50, 70) ∧
-    Overlaps 50 70 b.marginWidth b.marginHeight ⟨50, 70, 20, 20, .left⟩ := by
+    (findFloatPosition shapes b cb).toOption = some (70, 70) ∧
+    ¬ Overlaps 70 70 b.marginWidth b.marginHeight ⟨50, 70, 20, 20, .left⟩ := by
   refine ⟨by decide +kernel, ?_⟩
   simp [Overlaps, ABox.marginWidth, ABox.marginHeight]
+  intro h
+  exact absurd h (by decide +kernel)
+
+/-! ### Witnesses: clauses false of the current code (`finding:` lines of known_findings.txt) -/
+
+/-- `bottom: 0` in a `position: relative` container whose height (0) comes from `min-height: 100px`: the
+container's absolute children are laid out inside `block_container_layout`, before the clamp, so the containing
+block is 0 high and the 10px box ends at the container's *top* edge (y = −10..0) instead of its bottom edge
+(y = 90..100): `cb_height_of_relative_box` needs the hypothesis that min/max-height do not change the height
+(finding abs-cb-height-before-min-max). -/
+theorem abs_cb_height_before_min_max :
+    let c : CBHeights := ⟨0, 100, none⟩
+    cbHeightAtLayout true c = 0 ∧ c.used = 100 ∧
+    (usedV ⟨none, some 0, some 10, some 0, some 0, 0, 0, 0, 0, 0⟩ 0 (cbHeightAtLayout true c) 10).y = -10 ∧
+    (usedV ⟨none, some 0, some 10, some 0, some 0, 0, 0, 0, 0, 0⟩ 0 c.used 10).y = 90 := by
+  refine ⟨by decide +kernel, by decide +kernel, by decide +kernel, by decide +kernel⟩
+
+/-- `position: fixed; bottom: 0; height: 10px` holding two 10px blocks, declared at the top of a 320px page with
+16px margins: on its own page `make_page` lays it out with `bottom_space = 0 + translate_y = 278`, the content is
+laid out at the static position (y = 16) and the second block ends at 36 > 304 − 278: it is cut (and continued on
+the next page); on every other page `layout_fixed_boxes` uses `bottom_space = -inf` and both blocks are drawn.
+`fixed_same_content` needs the hypothesis that the content ends above `page_bottom − bottom_space`
+(finding fixed-box-fragmented-on-own-page). -/
+theorem fixed_box_fragmented_on_own_page :
+    let vb : VBox := ⟨none, some 0, some 10, some 0, some 0, 0, 0, 0, 0, 16⟩
+    Positioned.fixedKept (some 0) 304 vb 16 288 [10, 10] = 1 ∧ Positioned.fixedKept none 304 vb 16 288 [10, 10] = 2 := by
   decide +kernel
 
 /-- Zero-height *shapes* make the collision test a closed-interval test (boundary behaviour of
@@ -104,7 +127,7 @@ x = 70..100, over the right float (40..100 from y = 9): `placed_box_no_overlap` 
 position that `get_next_linebox` computes for alignments other than start. -/
 theorem tall_line_aligned_in_strut_band :
     let shapes : List Shape := [⟨0, 0, 10, 9, .left⟩, ⟨40, 9, 60, 30, .right⟩]
-    (nextLinebox ⟨0, 100, false⟩ 8 .right shapes shapes ⟨0, 30, 12, [], true⟩ 0).toOption.map (fun t => (t.x, t.y)) = some (70, 0) ∧
+    (nextLinebox ⟨0, 100, false⟩ 8 .right shapes ⟨0, 30, 12, []⟩ 0).toOption.map (fun t => (t.x, t.y)) = some (70, 0) ∧
     Overlaps 70 0 30 12 ⟨40, 9, 60, 30, .right⟩ := by
   refine ⟨by decide +kernel, ?_⟩
   simp [Overlaps]
@@ -121,39 +144,23 @@ theorem fixed_in_absolute_not_repeated :
 in a line next to an 80x30 left float stays where `float_layout` put it, below that float, and overlaps nothing. -/
 theorem inline_float_keeps_its_position :
     let shapes : List Shape := [⟨0, 0, 80, 30, .left⟩]
-    let l : LineSpec := { w0 := 10, w := 10, h := 10, floats := [⟨0, 0, 0, 0, 0, 0, 5, 10, .left, .left, .bfc⟩] }
-    ((layoutLines ⟨0, 100, false⟩ 10 .start shapes shapes [l] 0).toOption.map (fun r => r.2.2.1.map (fun p => p.floats)))
+    let l : LineSpec := ⟨10, 10, 10, [⟨0, 0, 0, 0, 0, 0, 5, 10, .left, .left, .bfc⟩]⟩
+    ((layoutLines ⟨0, 100, false⟩ 10 .start shapes [l] 0).toOption.map (fun r => r.2.1.map (fun p => p.floats)))
       = some [[(0, 30, 5, 10)]] ∧ ¬ Overlaps 0 30 5 10 ⟨0, 0, 80, 30, .left⟩ := by
   refine ⟨by decide +kernel, ?_⟩
   simp [Overlaps]
   intro _ _ h
   exact absurd h (by decide +kernel)
 
-/-- Regression (former finding rtl-inline-float-displaced, repaired in 330f66c): in an rtl container starting at
-x = 20, a 20x10 left float met in a line after a 20px word — next to an earlier float, so that the line is laid out
-once — stays at the left edge beside that float's band (x = 20 under a 100x5 float), not one line width further
-left. -/
-theorem rtl_inline_float_stays_in_container :
-    let shapes : List Shape := [⟨20, 20, 100, 5, .left⟩]
-    let l : LineSpec := { w0 := 20, w := 20, h := 10, floats := [⟨0, 0, 0, 0, 0, 0, 20, 10, .left, .none, .bfc⟩] }
-    ((layoutLines ⟨20, 100, true⟩ 10 .start shapes shapes [l] 20).toOption.map
-      (fun r => r.2.2.1.map (fun p => p.floats))) = some [[(20, 25, 20, 10)]] := by
-  decide +kernel
-
-/-- **A float met in a line that is started again is laid out twice, and the first copy stays among the floats**
-(finding inline-float-laid-out-twice): `get_next_linebox` restores `context.excluded_shapes` from a copy when it
-starts the line again, but the list on the stack of formatting contexts still holds the float laid out by the
-abandoned pass, and the `finish_block_formatting_context` at the end of the next `float_layout` makes that list
-current again.  In an rtl container without earlier floats every first line is started again (the test compares
-`position_x + line.width` with `original_position_x + original_width`, and `original_width` is 0): a 20x10 left
-float after a 20px word in a 100px container starting at x = 20 ends at x = 40, beside a copy of itself at x = 20,
-instead of against the container's left edge. -/
-theorem inline_float_laid_out_twice :
-    let l : LineSpec := { w0 := 20, w := 20, h := 10, floats := [⟨0, 0, 0, 0, 0, 0, 20, 10, .left, .none, .bfc⟩] }
-    let r := (layoutLines ⟨20, 100, true⟩ 10 .start [] [] [l] 20).toOption
-    r.map (fun r => r.2.2.1.map (fun p => p.floats)) = some [[(40, 20, 20, 10)]] ∧
-    r.map (fun r => r.2.1) = some [⟨20, 20, 20, 10, .left⟩, ⟨40, 20, 20, 10, .left⟩] ∧
-    (40 : Rat) ≠ 20 := by
-  refine ⟨by decide +kernel, by decide +kernel, by decide +kernel⟩
+/-- Regression (former findings rtl-inline-float-displaced, repaired in 330f66c, and inline-float-laid-out-twice,
+repaired in 58d1f9d): in an rtl container starting at x = 20 without earlier floats — every first line is started
+again there — a 20x10 left float met in a line after a 20px word is laid out against the container's left edge
+(x = 20), once: the float list holds exactly that float. -/
+theorem rtl_inline_float_at_the_edge_once :
+    let l : LineSpec := ⟨20, 20, 10, [⟨0, 0, 0, 0, 0, 0, 20, 10, .left, .none, .bfc⟩]⟩
+    let r := (layoutLines ⟨20, 100, true⟩ 10 .start [] [l] 20).toOption
+    r.map (fun r => r.2.1.map (fun p => p.floats)) = some [[(20, 20, 20, 10)]] ∧
+    r.map (fun r => r.1) = some [⟨20, 20, 20, 10, .left⟩] := by
+  refine ⟨by decide +kernel, by decide +kernel⟩
 
 end Wp.Witness.C11
